@@ -191,6 +191,14 @@ def run_model(ctx, cases, results, width=8, chunk=150):
                 lines += [e[0] for e in r["ev"]]
             spans.append((a, b, len(lines)))
         out, rc, err = ctx.run_lines(argv, lines, timeout=900)
+        # a reject message may carry a multi-line `repr` of a model state: continuation lines start with white space
+        merged = []
+        for l in out:
+            if merged and l[:1] in (" ", "\t"):
+                merged[-1] += " " + l.strip()
+            else:
+                merged.append(l)
+        out = merged
         if rc != 0 or len(out) != len(lines):
             raise RuntimeError("model driver failed rc=%s lines=%d/%d: %s" % (rc, len(out), len(lines), err[-400:]))
         for k, (a, b, e) in zip(range(lo, hi), spans):
